@@ -204,6 +204,7 @@ func monitor(c fw.Case, realOut []string) []string {
 	devSynced := false
 	devAhead := false // the device got a Set whose record write has not happened yet (in-flight apply)
 	draining := false
+	drainSteps := 0
 	var last mState
 	for k, line := range c.Script {
 		if k >= len(realOut) {
@@ -229,6 +230,14 @@ func monitor(c fw.Case, realOut []string) []string {
 		}
 		if op == "v3.drain" {
 			draining = true
+			drainSteps = 0
+		}
+		if draining && op == "v3.tx" {
+			if strings.HasSuffix(line, " valid ok -") {
+				drainSteps++
+			} else {
+				draining = false // not a fault-free drain (a shrunk or hand-written script)
+			}
 		}
 		if strings.HasPrefix(st.head, "panic") {
 			report("panic", "line %d (%s): the reconciler panicked: %s", k, line, st.head)
@@ -343,7 +352,7 @@ func monitor(c fw.Case, realOut []string) []string {
 			}
 		}
 		// termination
-		if op == "v3.end" && draining {
+		if op == "v3.end" && draining && drainSteps >= (2*(len(st.txs)-1)+6)*(len(st.txs)-1) {
 			// by design (rollbacks go in reverse order) a rollback request for a change that is not the
 			// latest committed one waits until the later changes are rolled back; while it waits, its
 			// own change is no longer applied, so the applies of all later changes wait as well
